@@ -25,6 +25,7 @@ static int all_cfgs(cfg_t *cfgs, int max, int rs_thorough, int with_null)
         nc += cfgs_rs(cfgs + nc, max - nc, EC_BACKEND_ISA_L_RS_VAND, 0, MO.seed + 1);
         nc += cfgs_rs(cfgs + nc, max - nc, EC_BACKEND_ISA_L_RS_CAUCHY, 0, MO.seed + 2);
     }
+    nc += cfgs_shss(cfgs + nc, max - nc);
     if (with_null) {
         static const int nk[][2] = { {1, 1}, {4, 2}, {10, 4}, {16, 16}, {3, 0} };
         for (int i = 0; i < 5 && nc < max; i++) cfgs[nc++] = (cfg_t){ EC_BACKEND_NULL, nk[i][0], nk[i][1], nk[i][1], 0, CHKSUM_CRC32 };
@@ -159,7 +160,8 @@ static void check_sizes(const cfg_t *c, const char *ck, int desc, uint64_t len, 
     uint64_t want_al = ((len + A - 1) / A) * A;
     mon_count("evaluations", 2);
     if ((uint64_t)al != want_pub) mon_viol("C08", "aligned-size", "get_aligned_data_size(%llu)=%d, smallest multiple of %llu >= len is %llu", (unsigned long long)len, al, (unsigned long long)Apub, (unsigned long long)want_pub);
-    if ((uint64_t)fs != want_al / (uint64_t)c->k) mon_viol("C08", "fragment-size-model", "get_fragment_size(%llu)=%d, model payload %llu", (unsigned long long)len, fs, (unsigned long long)(want_al / (uint64_t)c->k));
+    uint64_t bms = (uint64_t)ref_backend_metadata_bytes(c->be);
+    if ((uint64_t)fs != want_al / (uint64_t)c->k + bms) mon_viol("C08", "fragment-size-model", "get_fragment_size(%llu)=%d, model payload %llu + backend metadata %llu", (unsigned long long)len, fs, (unsigned long long)(want_al / (uint64_t)c->k), (unsigned long long)bms);
     if (do_encode) {
         uint8_t *d = calloc(1, len ? len : 1);
         for (uint64_t i = 0; i < len; i += 97) d[i] = (uint8_t)(i * 131 + 7);
@@ -171,7 +173,7 @@ static void check_sizes(const cfg_t *c, const char *ck, int desc, uint64_t len, 
             if ((uint64_t)fs + 80 != flen) mon_viol("C08", "fragment-size-vs-encode", "get_fragment_size(%llu)+80=%d but encode produced fragment_len %llu", (unsigned long long)len, fs + 80, (unsigned long long)flen);
             for (int f = 0; f < c->k + c->m; f++) {
                 const uint8_t *h = (const uint8_t *)(f < c->k ? ed[f] : ep[f - c->k]);
-                if (ref_get32(h + REF_OFF_SIZE) != (uint32_t)fs) { mon_viol("C08", "header-size-field", "header size field %u of fragment %d != get_fragment_size %d", ref_get32(h + REF_OFF_SIZE), f, fs); break; }
+                if (ref_get32(h + REF_OFF_SIZE) + ref_get32(h + REF_OFF_BMS) != (uint32_t)fs || ref_get32(h + REF_OFF_BMS) != (uint32_t)bms) { mon_viol("C08", "header-size-field", "header size field %u + backend metadata size %u of fragment %d != get_fragment_size %d", ref_get32(h + REF_OFF_SIZE), ref_get32(h + REF_OFF_BMS), f, fs); break; }
                 if (ref_get64(h + REF_OFF_ORIG) != len) { mon_viol("C08", "header-orig-field", "header orig_data_size %llu != %llu", (unsigned long long)ref_get64(h + REF_OFF_ORIG), (unsigned long long)len); break; }
             }
             liberasurecode_encode_cleanup(desc, ed, ep);
@@ -444,7 +446,7 @@ static int mismatch_ref(const uint8_t *frag, uint64_t P)
 
 static void check_mismatch(ctx_t *x, const uint8_t *frag, uint64_t flen, const char *what, int expect_valid_known, int expect_valid)
 {
-    uint64_t P = flen - 80;
+    uint64_t P = flen - 80 - (uint64_t)ref_backend_metadata_bytes(x->c.be);      /* the checksum covers the payload, not the backend's trailer */
     uint8_t *f = malloc(flen); memcpy(f, frag, flen);
     fragment_metadata_t md;
     int rc = liberasurecode_get_fragment_metadata((char *)f, &md);
@@ -495,7 +497,7 @@ static void run_checksum(void)
                 strncat(x.ck, suffix, sizeof x.ck - strlen(x.ck) - 1);
                 int n = cfg_n(&c);
                 for (int si = 0; si < x.nstr; si++) {
-                    stripe_t *s = &x.st[si]; uint64_t P = s->flen - 80;
+                    stripe_t *s = &x.st[si]; uint64_t P = s->flen - 80 - (uint64_t)ref_backend_metadata_bytes(c.be);
                     /* stored checksum of every encoded fragment == model CRC (variant per switch) */
                     if (mon_case("%s|len=%llu|stored-checksums", x.ck, (unsigned long long)s->len)) {
                         for (int f = 0; f < n; f++) {
@@ -628,7 +630,7 @@ static void run_endian(void)
             if (ctx_open(&x, &c, lens, kinds, 2) == 0) {
                 int n = cfg_n(&c);
                 for (int si = 0; si < x.nstr; si++) {
-                    stripe_t *s = &x.st[si]; uint64_t P = s->flen - 80;
+                    stripe_t *s = &x.st[si]; uint64_t P = s->flen - 80 - (uint64_t)ref_backend_metadata_bytes(c.be);
                     for (int f = 0; f < n; f += (n > 10 && !MO.thorough ? 3 : 1)) {
                         if (!mon_case("%s|legacy=%d|len=%llu|frag=%d|twin", x.ck, lm >= 3, (unsigned long long)s->len, f)) continue;
                         rng_t r; rng_case(&r);
@@ -756,13 +758,16 @@ static void run_validate(void)
         { EC_BACKEND_FLAT_XOR_HD, 3, 3, 3, 0, CHKSUM_CRC32 }, { EC_BACKEND_FLAT_XOR_HD, 10, 5, 3, 0, CHKSUM_NONE }, { EC_BACKEND_FLAT_XOR_HD, 12, 6, 4, 0, CHKSUM_CRC32 },
         { EC_BACKEND_NULL, 4, 2, 2, 0, CHKSUM_CRC32 }, { EC_BACKEND_NULL, 8, 4, 4, 0, CHKSUM_NONE },
         { EC_BACKEND_ISA_L_RS_VAND, 4, 2, 2, 0, CHKSUM_CRC32 }, { EC_BACKEND_ISA_L_RS_CAUCHY, 6, 3, 3, 0, CHKSUM_CRC32 }, { EC_BACKEND_ISA_L_RS_CAUCHY, 4, 2, 2, 0, CHKSUM_NONE },
+        { EC_BACKEND_SHSS, 4, 2, 2, 0, CHKSUM_CRC32 },
     };
     int np = (int)(sizeof pool_q / sizeof pool_q[0]);
     static ctx_t X[16];
     int ok[16] = {0};
+    int shss_ok = liberasurecode_backend_available(EC_BACKEND_SHSS);
     for (int i = 0; i < np; i++) {
         cfg_t c = pool_q[i];
         if (!isal_ok && (c.be == EC_BACKEND_ISA_L_RS_VAND || c.be == EC_BACKEND_ISA_L_RS_CAUCHY)) continue;
+        if (!shss_ok && c.be == EC_BACKEND_SHSS) continue;
         uint64_t lens[2] = { (uint64_t)c.k * 4 * 9 + 1, 333 + MO.seed % 100 }; int kinds[2] = { DATA_RANDOM, DATA_HIGH };
         ok[i] = ctx_open(&X[i], &c, lens, kinds, 2) == 0;
     }
